@@ -497,6 +497,12 @@ cgsitrf(superlu_options_t *options, SuperMatrix *A, int relax, int panel_size,
 			if (error) { *info = error; return; }
 			lsub = Glu->lsub;
 		    }
+		    if (xlusup[jj] >= Glu->nzlumax) {
+			int_t nzlumax = Glu->nzlumax;
+			int error = cLUMemXpand(jj, xlusup[jj], LUSUP, &nzlumax, Glu);
+			if (error) { *info = error; return; }
+			lsub = Glu->lsub;
+		    }
 		    xlsub[jj + 1]++;
 		    assert(xlusup[jj]==xlusup[jj+1]);
 		    xlusup[jj + 1]++;
